@@ -136,3 +136,55 @@ def SANB(b, san):
     if san and b == 0xFF:
         return 0x79
     return b
+
+
+# ---- the reader algebra of E2 (pyvc.gen.Vocab): ONE text, three consumers - asserted symbolically on the
+# abstract reader states of E2 (Vocab.skip / setch / next evaluate these functions on z3 terms), proved
+# over the C05 contracts of the real EoReader methods (lemmas.reader_algebra), and evaluated on the real
+# EoReader (checks.extras.reader_algebra).  Observations of a state: ch = chunked mode, pos = position,
+# rem = remaining, tot = len(data) - position, csr = len(data) - chunk start.
+def RA_STATE(ch, rem, tot, csr):
+    """remaining is never negative, never more than what lies beyond the position, and all of it outside
+    chunked mode; the chunk start is never beyond the position"""
+    return 0 <= rem and rem <= tot and tot <= csr and (ch or rem == tot)
+
+
+def RA_SKIP(n, ch, pos, rem, tot, csr, ch2, pos2, rem2, tot2, csr2):
+    """a read of n >= 0 bytes consumes k = min(n, remaining)"""
+    k = n if n < rem else rem
+    return ch2 == ch and pos2 == pos + k and rem2 == rem - k and tot2 == tot - k and csr2 == csr
+
+
+def RA_SETCH(b, ch, pos, rem, tot, csr, ch2, pos2, rem2, tot2, csr2):
+    """setting the mode keeps the position and the chunk start; setting the mode it already has
+    keeps everything"""
+    return (ch2 == b and pos2 == pos and tot2 == tot and csr2 == csr and 0 <= rem2 and rem2 <= tot2
+            and (b or rem2 == tot2) and (ch != b or rem2 == rem))
+
+
+def RA_NEXT(ch, pos, rem, tot, csr, ch2, pos2, rem2, tot2, csr2):
+    """next_chunk keeps the mode and lands ON the new chunk start.  The position may move BACKWARDS
+    (mode switched on after reading past a break), so progress is on the chunk start: it strictly
+    advances while any data lies beyond it"""
+    return (ch2 == ch and 0 <= rem2 and rem2 <= tot2 and tot2 == csr2 and 0 <= csr2
+            and (csr2 < csr if csr > 0 else csr2 == csr))
+
+
+# ---- the writer algebra of E2 (pyvc.gen.GenExec.writer_call): when the writer refuses a value.  One text:
+# evaluated symbolically by writer_call, proved over the C09 contracts in lemmas.writer_algebra
+def WA_INT_RAISES(width, v):
+    """add_byte (width 0) / add_char / add_short / add_three / add_int raise ValueError exactly then (v >= 0)"""
+    if width == 0:
+        return v > 0xFF
+    if width == 1:
+        return v >= 253
+    if width == 2:
+        return v >= 64009
+    if width == 3:
+        return v >= 16194277
+    return v >= 4097152081
+
+
+def WA_FIXED_RAISES(n, length, padded):
+    """add_fixed_string / add_fixed_encoded_string of a string of n characters raise ValueError exactly then"""
+    return (padded and length < n) or (not padded and n != length)
